@@ -553,7 +553,8 @@ def runSteps (c : Cfg α) (tf dtminS : α) : St α → α → List (StepAns α) 
 /-! ## `setup()`: the state the first step starts from
 
 `PrecipitateBase.setup` (initial composition and temperature into row 0) and `PrecipitateModel.setup`: every PBM reset to its
-original grid, a copy `Y` of the row taken BEFORE the equilibrium compositions are written into it, lookup table built at the
+original grid, a copy `Y` of the row (taken before the equilibrium compositions are written; they are handed to it before the first
+nucleation-rate evaluation since repair 50dfab2), lookup table built at the
 recorded temperature (binary) or zero tables plus the equilibrium compositions the backend returns (multicomponent), nucleation
 terms on the empty distributions, zero growth field, growth-rate call, `setSlice(Y, n)`.  `eqMulti` are the answers of the
 per-phase `getGrowthAndInterfacialComposition` calls of the multicomponent branch (`none` = no result). -/
@@ -573,7 +574,8 @@ def setupState (c : Cfg α) (s : St α) (a : EvalAns α) (eqMulti : List (Option
                                                       | some (ea, eb) => { yp with xEqA := ea, xEqB := eb }
                                                       | none => yp) })
   let s1 : St α := { sr.1 with hist := sr.2 :: rest }
-  let y1 := nucleation c s1 row1.time (s1.ph.map (fun ps => ps.grid.psd)) a row1
+  -- (after repair 50dfab2 the first nucleation-rate evaluation sees the equilibrium compositions written above)
+  let y1 := nucleation c s1 row1.time (s1.ph.map (fun ps => ps.grid.psd)) a sr.2
   let s2 : St α := { s1 with ph := s1.ph.map (fun ps => { ps with growth := zerosL (ps.grid.bins + 1) }) }
   let g := growthRate c s2 a y1
   { g.1 with hist := g.2 :: rest }
